@@ -9,7 +9,8 @@ BASELINE = ('cd /repo && /venv/bin/python -m pytest -ra -q -p no:cacheprovider '
 NOTE_A = ('World A glue mirrors Loader; virtual clock; canonical key argument '
           'in DESIGN 2.2; small-scope bounds (3-4 servers, <=5 instances, '
           'menus in the evidence).')
-NOTE_B = ('Fake ZooKeeper (mc/fakezk.py, semantics pinned by selftest) is the '
+NOTE_B = ('Module-level state of the package is reset before every history '
+          '(mc/modstate.py). Fake ZooKeeper (mc/fakezk.py, semantics pinned by selftest) is the '
           'trusted base; everything above the kazoo client API is real code; '
           'virtual clock; 3 servers, <=4 instances.')
 TECH_BOUNDX = ('bounded-exhaustive input enumeration of the implementation '
@@ -33,7 +34,11 @@ CHECKS = {
               'probe template is submitted and the real cycle is compared '
               'with an independent leaf-scan feasibility oracle (topology, '
               'traits/partitions, affinity limits and lease/reboot-date '
-              'configurations).', '5/C02'),
+              'configurations; probes of an existing affinity with limits on '
+              'other levels); after every cycle every rack / pod / cell must '
+              'cover labels, traits and free capacity of every up server '
+              'below it, also on the real master (server record changes, '
+              'presence, cell events).', '5/C02'),
     'C03': _s('BFS over histories incl. partition re-assignment, trait/label '
               'changes, freeze/down, leases under a virtual clock; every new '
               'placement is checked against the eligibility predicate and '
@@ -51,7 +56,10 @@ CHECKS = {
               'blacklisting and group count changes with up to 2 skipped '
               'cycles (incl. a group shrinking while holders sit on frozen '
               'or down servers); identity invariants recomputed from '
-              'Cell.apps.',
+              'Cell.apps; on the real master also with the watches firing '
+              'between the two writes of one identity-group API call, and '
+              'with the crash-point enumeration of C10 followed by further '
+              'arrivals.',
               '5/C05'),
     'C07': _s('BFS over pressure histories; the queue handed to placement is '
               'captured per cycle and every displaced healthy instance must '
@@ -63,7 +71,10 @@ CHECKS = {
               'the retention timeouts against a reference automaton on '
               'logical seconds; across master restarts the records published '
               'under down-within-retention and frozen servers are compared '
-              'before/after start-up on ZooKeeper alone.', '5/C08'),
+              'before/after start-up on ZooKeeper alone; the master\'s own '
+              'watchdog (check_integrity: placed but not running for five '
+              'minutes) with node-reported /running records; glob '
+              'blacklists.', '5/C08'),
     'C09': _s('BFS over histories of ZooKeeper-level events driving the real '
               'Master/ZkBackend/masterapi on an in-memory ZooKeeper, incl. '
               'restarts (also onto a stray double record) and skipped cycles; '
@@ -87,7 +98,9 @@ CHECKS = {
               'load_model() on a copy of the stored tree and is compared '
               'with every record under a healthy server; one-partition, '
               'two-partition (also with a trait learned from server records '
-              'only) and lease-next-to-reboot configurations.',
+              'only, /traits in another order, a server joining later) and '
+              'lease-next-to-reboot configurations; at shallow states every '
+              'single ZooKeeper read of the load fails once.',
               '5/C11',
               note=NOTE_B),
     'C06': _s('Bounded-exhaustive sweep of the real Allocation/Cell code: every '
@@ -129,7 +142,8 @@ CHECKS = {
               'snapshot), each followed by a restart and re-sync; a start-up '
               'slice drives the real EventMgr.run watch registration '
               '(placement_ready order) over cache files left by a previous '
-              'run.', '5/C12',
+              'run; a two-sync slice: ZooKeeper and the placement list move '
+              'on and the SAME agent synchronises again.', '5/C12',
               note='fake ZooKeeper; st_ctime of cache files assigned by the '
                    'harness; process-kill semantics (no power-loss/fsync '
                    'model); rename/unlink atomic; only non-dot names judged',
@@ -269,9 +283,11 @@ CHECKS = {
               'turn is made to fail with ConnectionLoss (request lost / applied '
               'but reply lost), then re-run; every instance independently '
               'scheduled x has an exit record; a size menu (45 KB to > 16 MiB '
-              'snapshots) for the real upload_batch -> download_batch round '
+              'snapshots, one compressing to more than 1 MiB) for the real '
+              'upload_batch -> download_batch round '
               'trip; a second cleanup cycle with the '
-              'same client follows every schedule change; '
+              'same client follows every schedule change (incl. one instance '
+              'leaving while another arrives); '
               'snapshots are inflated and opened with sqlite3.', '5/C18',
               note='fake ZooKeeper; atomic ordered writes; one archiver '
                    'session; get_children order is a menu; payloads of trace '
@@ -305,7 +321,10 @@ CHECKS = {
               'advances; instances die/appear; count changed; monitor deleted/'
               're-created; restart) for all single monitors (count 0-3 x '
               'policy) and 6 pairs, with drain and convergence continuations '
-              'from every state; reference token bucket.', '5/C20',
+              'from every state; monitors are configured through the real '
+              'api.app_monitor -> masterapi path; a configuration with '
+              'several evaluations inside a suspension; reference token '
+              'bucket.', '5/C20',
               note='_run_sync entered with once=True and a capturing '
                    'reevaluate stub for the start-up call only; scheduled '
                    'view up to date at every evaluation; fake REST/zk/alert; virtual clock '
